@@ -7,9 +7,9 @@ FAMILY = "run"
 
 MANIFEST = {
  "level": "other",
- "text": "Partly proved, partly explored. Proved about the Gallina model (Props/C08.v): the fixed costs of the 4-byte secp256k1/secp256r1 operators equal what the unknown-operator cost rule charges for their opcodes (constants re-read from the source by the translator, so retuning one breaks the obligation) and a successful secp call returns nil like an unknown operator; on the hiding dialect a well-formed guard for any extension is skipped with nil and its declared cost; on the aware dialect a completed non-exempt guard yields nil and exactly its declared cost (guard frame theorem shared with C31). Not proved: the whole-run simulation aware => hiding (needs the frame theorem applied under arbitrary contexts plus allocator counters, which the tree-store model does not have). That is decided by running every generated program on ChiaDialect and on an extension-hiding wrapper dialect on the implementation, comparing result, cost and atom/pair/heap counts whenever the aware run succeeds.",
- "note": vlib.NOTE_COMMON + " Level 'other': see text.",
- "technique": "Coq proof (secp cost = unknown-op cost by computation over translated constants; guard frame lemma) + model/implementation differential run on both dialects + implementation search aware vs hiding dialect incl. allocator counters",
+ "text": "Proved about the Gallina model of run_program.rs + ChiaDialect (Props/C08.v), for every program, environment, budget, set of cryptographic primitives and every flag set without NEW_COST_MODEL and NO_UNKNOWN_OPS: whenever the run on ChiaDialect succeeds, the run on the extension-hiding dialect (softfork_extension always Default, 4-byte opcodes unknown) succeeds with the same cost and the same result (C08_run). Ingredients, each a theorem: the unknown-operator cost rule charges the opcodes 13d61f00 / 1c3a8f00 exactly SECP256K1_VERIFY_COST / SECP256R1_VERIFY_COST for every argument list (constants and opcodes re-read from the source by the translator and pinned, so retuning one breaks the obligation) and a successful secp call returns nil (C08_secp_cost, C08_secp_value, C08_op); the hiding dialect skips a softfork call for any extension in one step with nil and the declared cost (C08_hiding_guard); on the aware dialect a guard that completes ends in exactly that state at exactly that cost (C08_guard_agree, from the guard frame theorem shared with C31). Not proved: equality of the allocator atom/pair/heap counts - the tree-store model has no allocator (a guard's full checkpoint restore resets the counts on the allocator model, C12). That clause is decided by running every generated program on ChiaDialect and on an extension-hiding wrapper dialect on the implementation, comparing result, cost and the three counts whenever the aware run succeeds.",
+ "note": vlib.NOTE_COMMON + " Level 'other': the counter clause is observed, not proved.",
+ "technique": "Coq proof (run-level simulation aware => hiding with completed guards as black boxes via the frame lemma; secp cost = unknown-op cost over translated constants) + model/implementation differential run on both dialects + implementation search aware vs hiding dialect incl. allocator counters",
 }
 
 # consensus mode, pre-hard-fork cost model: none of the mempool restriction flags, no NEW_COST_MODEL
